@@ -57,6 +57,19 @@ class CacheFacts:
                         d = dotted(b)
                         if d and len(d) == 2 and d[0] == self.setitem.self_name:
                             self.cap_field = d[1]
+        self.cap_guard_found = self.cap_field is not None
+        if self.cap_field is None:
+            # no such comparison (the bound may be kept through a counter of free slots ...): the capacity is the constructor
+            # parameter stored as given along the constructor chain; the capacity rule itself then reports what it cannot read
+            for k in self.cls.repo_mro():
+                if k.is_external or "__init__" not in k.methods:
+                    continue
+                g = k.methods["__init__"]
+                for n in walk_own(g.node):
+                    if isinstance(n, ast.Assign) and len(n.targets) == 1 and isinstance(n.value, ast.Name) and n.value.id in g.params[1:2]:
+                        d = dotted(n.targets[0])
+                        if d and len(d) == 2 and d[0] == g.self_name and self.cap_field is None:
+                            self.cap_field = d[1]
         if self.cap_field is None:
             raise AnalysisError(f"{name}.__setitem__: no comparison of len(self.{self.dict_field}) with a capacity field")
         # list method summaries: size delta and the end a method targets
@@ -517,7 +530,11 @@ def rule_coherence_capacity(prog, rep: Report, cf: CacheFacts, rule_coh: str, ru
                   f"a path changes the dict by {bad[0][0] if bad else 0} entries and the list by {bad[0][1] if bad else 0} nodes",
                   scenario="dict and recency list describe different key sets: a later eviction deletes a key that is "
                            "not in the dict (KeyError) or leaves a stale node", witness={"deltas": bad})
-        if f is cf.setitem:
+        if f is cf.setitem and not cf.cap_guard_found:
+            for role_ in ("below-capacity", "at-capacity"):
+                rep.unrec(rule_cap, f, role_, f"__setitem__ does not compare len(self.{cf.dict_field}) with self.{cf.cap_field}: how the bound "
+                          "is kept (a counter of free slots, ...) is not something the ordering abstraction reads")
+        elif f is cf.setitem:
             lt_new = {s[2] for s in finals_by_order[LT] if s[1] is True and _was_absent(s)}
             # states where the key was absent at entry: recognised by d_dict + presence bookkeeping below
             grow_lt = {s[2] for s in finals_by_order[LT]}
@@ -875,3 +892,55 @@ def rule_accepts_capacity(prog, rep: Report, cf: CacheFacts, rule: str):
             rep.ok(rule, f, role, f"no raise reachable for {cap} in (1, 2, 3, 10**6) on a path decided by the value")
     if n == 0:
         rep.unrec(rule, cf.getitem, "accepts-capacity", "no constructor with a capacity parameter found")
+
+
+
+def rule_failed_lookup_noop(prog, rep: Report, cf: CacheFacts, rule: str):
+    """a delete / look-up of an absent key raises KeyError and changes nothing"""
+    from .memo import MUTATOR_CALLS
+    rep.rule(rule, "a failed operation changes nothing: in __delitem__ and __getitem__ no field of the cache is assigned or updated in "
+             "place before the first dictionary access keyed by the parameter (the access that raises KeyError for an absent key), "
+             "unless the access sits in a try block", floor=2)
+    for f in (cf.delitem, cf.getitem):
+        rep.fn(f)
+        key = f.params[1]
+        role = f"failed-noop:{f.name}"
+
+        def is_lookup(n):
+            if isinstance(n, ast.Subscript) and cf.is_dict(n.value, f) and src(n.slice) == key:
+                return True
+            return isinstance(n, ast.Call) and isinstance(n.func, ast.Attribute) and n.func.attr == "pop" and cf.is_dict(n.func.value, f) \
+                and len(n.args) == 1 and src(n.args[0]) == key
+        early = None
+        found = False
+        for st in f.node.body:
+            if any(is_lookup(n) for n in ast.walk(st)):
+                found = True
+                break
+            if isinstance(st, (ast.If, ast.Try, ast.For, ast.While, ast.With, ast.Return, ast.Raise)):
+                break            # only the straight-line prefix is read
+            for n in ast.walk(st):
+                tgt = None
+                if isinstance(n, (ast.Assign, ast.AugAssign, ast.AnnAssign)):
+                    for t in (n.targets if isinstance(n, ast.Assign) else [n.target]):
+                        b = t
+                        while isinstance(b, ast.Subscript):
+                            b = b.value
+                        d = dotted(b)
+                        if d and d[0] == f.self_name and len(d) >= 2:
+                            tgt = (n, ".".join(d))
+                elif isinstance(n, ast.Call) and isinstance(n.func, ast.Attribute) and n.func.attr in MUTATOR_CALLS:
+                    d = dotted(n.func.value)
+                    if d and d[0] == f.self_name and len(d) >= 2:
+                        tgt = (n, ".".join(d))
+                if tgt and early is None:
+                    early = tgt
+        if found and early is not None:
+            rep.viol(rule, f, role, f"`{src(early[0])[:60]}` changes {early[1]} before the dictionary access that raises KeyError for an "
+                     "absent key: a failed operation leaves the cache changed",
+                     scenario="del c[missing] (or c.pop(missing, None)) raises / returns the default, yet the bookkeeping moved: later "
+                              "stores grow the cache beyond max_size or evict too early", line=early[0].lineno)
+        elif found:
+            rep.ok(rule, f, role, "no field is changed before the dictionary access keyed by the parameter")
+        else:
+            rep.ok(rule, f, role, "the dictionary access is not in the straight-line prefix (guarded / handled): not read by this rule")
